@@ -91,6 +91,24 @@ pub struct ReplayFile {
     pub minimised: bool,
     #[serde(default)]
     pub note: String,
+    /// which strided share of the runs the finding worker was executing (so that the runs that
+    /// preceded this one *in the same process* can be regenerated)
+    #[serde(default)]
+    pub worker: Option<WorkerSeg>,
+    /// replay must first execute the worker's preceding runs in the same process: the failure
+    /// depends on process-global state left behind by earlier runs (a static in the code under
+    /// test), so the scenario alone does not reproduce it in a fresh process
+    #[serde(default)]
+    pub prelude: bool,
+}
+
+#[derive(Clone, Debug, Serialize, Deserialize)]
+pub struct WorkerSeg {
+    pub check: String,
+    pub family: String,
+    pub from: u64,
+    pub stride: u64,
+    pub offset: u64,
 }
 
 /// Runs `f`, converting a panic into `Err(message)`.
